@@ -34,23 +34,26 @@
      it is resumed                                            suspended_state_gets_no_onRead
      - also when the read notification was already            two_clients_suspended_gets_no_onRead
        collected by the poll round in which ANOTHER           two_clients_suspended_state_gets_no_onRead
-       client's callback suspends it (two clients of          cached_events_within_interest (the cache of
-       one Server, Socket::Poll's cache of collected            collected events never holds an event kind its
-       events: step2 / exec2, ServerWrite2Model.v)              client is not registered for NOW)
+       client's callback suspends it (n clients (list,          (the names are historical: the theorems are
+       indexed by nat) of one Server, Socket::Poll's             about ANY number of clients)
+       cache of collected events: step2 / exec2,              cached_events_within_interest (the cache of
+       ServerWrite2Model.v)                                     collected events never holds an event kind its
+                                                                client is not registered for NOW)
                                                               one_client_model_embeds (step2 restricted to
-                                                                client A is step)
+                                                                client 0 is step)
    interest set (Server.cpp:348,460,497,505)                  interest_invariant, unregistered_has_no_backlog
    the property as a set of traces (ServerWriteMonitor.v):     model_history_accepted_by_property_monitor
-     a monitor over the events of one client that rejects     two_client_history_accepted_by_property_monitor
-     exactly what contradicts a clause above (stream / size /  (trace, trace2: ServerWriteMonitorProofs.v; the
-     onWrite incl. a progress bound / suspended / peer) and     progress clause is part of the one-client trace only)
-     leaves open what the text leaves open: number and size
+     a monitor over the events of one client that rejects     two_client_history_accepted_by_property_monitor (n clients)
+     exactly what contradicts a clause above (stream / size /  (trace, trace2: ServerWriteMonitorProofs.v; histories
+     onWrite incl. deadlines onWrite + progress / suspended,    with the ends of run() calls and the size probes
+     resumed = read notifications come back / peer) and         ANYWHERE; the kernel-asked events, hence the deadline
+     leaves open what the text leaves open: number and size     clauses, are part of the one-client trace only)
      of send calls, order of callbacks of different clients,
-     onClosed, when onRead IS delivered.  THIS is the oracle
+     onClosed.  THIS is the oracle
      the implementation is judged by (checks/C13.py runs the
      extracted monitor on the observed trace).
    model = reference OBJECT (one exact observation per         model_refines_spec (ServerWriteRefine.v)
-     operation: one send of the whole backlog per event, ...)  two_client_model_refines_spec (ServerWrite2Refine.v)
+     operation: one send of the whole backlog per event, ...)  two_client_model_refines_spec (n clients; ServerWrite2Refine.v)
      - the precise, call-by-call version; about the model only
 
    Not proved here (assumed / validated by correspondence only): that the kernel delivers the bytes it
@@ -161,10 +164,13 @@ Theorem suspended_state_gets_no_onRead : forall ops x,
 Proof. exact suspended_state_lemma. Qed.
 Print Assumptions suspended_state_gets_no_onRead.
 
-(* Two clients A (false) and B (true) of one Server.  [exec2 init2 ops] runs a history of
+(* n clients (a list, indexed by nat: 0 = A, 1 = B, 2 = C, ...; every client starts in the initial
+   state) of one Server; the "two_client(s)" in the theorem names is historical.  [exec2 init2 ops]
+   runs a history of
      On c x          any operation of the one-client vocabulary on client c (a callback of A calling
-                     B.suspend() is the step On true Suspend between two Deliver steps)
-     Collect f n0 n1 one epoll_wait reporting readiness n0 / n1 for A / B (any subset, either order)
+                     B.suspend() is the step On 1 Suspend between two Deliver steps)
+     Collect evs     one epoll_wait reporting the clients of evs : list (nat * native), in this order,
+                     with this readiness (any clients, any order, any number)
      Deliver o       one poll() call handing out the oldest collected event + its dispatch
      Sweep           one iteration of the closing-clients pass
    ops_of c ops = the one-client operations the history issued on client c. *)
@@ -193,8 +199,8 @@ Proof. exact cache_within_interest_lemma. Qed.
 Print Assumptions cached_events_within_interest.
 
 Theorem one_client_model_embeds : forall ops,
-  cl0 (fst (exec2 init2 (map (On false) ops))) = fst (exec init ops) /\
-  map o2_out (snd (exec2 init2 (map (On false) ops))) = snd (exec init ops).
+  get2 (fst (exec2 init2 (map (On 0%nat) ops))) 0%nat = fst (exec init ops) /\
+  map o2_out (snd (exec2 init2 (map (On 0%nat) ops))) = snd (exec init ops).
 Proof. exact embedding_init_lemma. Qed.
 Print Assumptions one_client_model_embeds.
 
@@ -226,22 +232,27 @@ Print Assumptions two_client_model_refines_spec.
 
 (* ---- the property as a monitor over traces ------------------------------------------------------------
 
-   [trace init ops]: the events the history ops of the one-client model shows (write calls with their
+   [trace init h]: the events the history h of the one-client model shows (write calls with their
    return value, postponed count and the bytes the OS took; bytes the OS took from sends of backlog;
-   refused sends; callbacks; suspend/resume; getSendBufferSize after every operation; what the peer
-   reads; the kernel finding the socket writable; the end of every run()).  [mon_run mon_init] is the
+   refused sends; callbacks; suspend/resume; what the peer reads; the kernel, asked by a poll event, finding
+   the socket writable / finding unread input).  A history h is a list of operations of the model [HOp x],
+   probes of getSendBufferSize() [HSize] and ends of run() calls [HRunEnd] in ANY order - where a run() of the
+   server returns and where the application asks for the size is up to the history, so the order in which
+   checks/C13.py serialises what the harness observed (operations executed from inside a callback before the
+   end of the run() that delivered it, one size probe per line) is an instance.  [mon_run mon_init] is the
    monitor of ServerWriteMonitor.v.  Every history - every interleaving of writes of every size,
    suspend/resume, poll events with every readiness, reads, peer actions, and every answer of the
-   operating system to every send - is accepted.  [trace2 c init2 ops]: the events of client c in a
-   history of the two-client machine. *)
+   operating system to every send - is accepted.  [trace2 c init2 h]: the events of client c in a
+   history of the n-client machine (c : nat, any client; h : operations of the machine, size probes of any
+   client, ends of run() calls); the kernel-asked events (EWritable / EReadable) are not part of it. *)
 
-Theorem model_history_accepted_by_property_monitor : forall ops,
-  exists m, mon_run mon_init (trace init ops) = Go m.
+Theorem model_history_accepted_by_property_monitor : forall h,
+  exists m, mon_run mon_init (trace init h) = Go m.
 Proof. exact model_trace_accepted_lemma. Qed.
 Print Assumptions model_history_accepted_by_property_monitor.
 
-Theorem two_client_history_accepted_by_property_monitor : forall ops c,
-  exists m, mon_run mon_init (trace2 c init2 ops) = Go m.
+Theorem two_client_history_accepted_by_property_monitor : forall h c,
+  exists m, mon_run mon_init (trace2 c init2 h) = Go m.
 Proof. exact two_client_trace_accepted_lemma. Qed.
 Print Assumptions two_client_history_accepted_by_property_monitor.
 
@@ -253,20 +264,27 @@ Example ex_monitor_rejects :
   mon_run mon_init [EWrite [1; 2] false (Some 0) [1]] = Stop c_stream /\
   mon_run mon_init [EWrite [1; 2; 3] true (Some 2) [1; 2]] = Stop c_size /\
   mon_run mon_init [EWrite [1; 2; 3] true None [1]; ESize 3] = Stop c_size /\
+  mon_run mon_init [EWrite [1; 2; 3] true (Some 9223372036854775807) [1]] = Stop c_size /\
   mon_run mon_init [EWrite [1; 2] true None [1]; ECb OnWrite] = Stop c_onwrite /\
   mon_run mon_init [EWrite [1; 2] true None [1]; EHand [2]; ECb OnWrite; ERunEnd; ECb OnWrite] = Stop c_onwrite /\
-  mon_run mon_init [EWrite [1; 2] true None [1]; EHand [2]; ERunEnd] = Stop c_onwrite /\
+  mon_run mon_init [EWrite [1; 2] true None [1]; EHand [2]; ERunEnd; EWritable; ERunEnd; ERunEnd] = Stop c_onwrite /\
   mon_run mon_init [ESusp true; ECb OnRead] = Stop c_suspended /\
   mon_run mon_init [EWrite [1; 2] true None [1]; EWritable; ERunEnd; EWritable; ERunEnd] = Stop c_progress /\
-  mon_run mon_init [EWrite [1; 2] true None [1; 2]; EPeer [1]] = Stop c_peer.
+  mon_run mon_init [EWrite [1; 2] true None [1; 2]; EPeer [1]] = Stop c_peer /\
+  mon_run mon_init [ESusp true; ESusp false; EReadable; ERunEnd; EReadable; ERunEnd] = Stop c_resumed /\
+  mon_run mon_init [EWrite [] false (Some 0) []; EWrite [1; 2] true (Some 1) [1]; EHand [1]] = Stop c_stream.
 Proof. vm_compute. repeat split. Qed.
 
 (* ... and accepts what the text leaves open: the backlog split over any number of send calls, an onRead in
-   between, a refused send *)
+   between, a refused send; an onWrite delivered at the writable report that follows the drain; an onRead one run()
+   after the kernel found the input (the notification was cached); a readable report served by the write side *)
 Example ex_monitor_accepts_any_split :
-  exists m, mon_run mon_init [EWrite [1; 2; 3; 4; 5] true (Some 4) [1]; EWritable; EHand [2]; EHand [3; 4]; ECb OnRead; ESize 1; ERunEnd;
-                              EWritable; EBlock; ERunEnd; EWritable; EHand [5]; ECb OnWrite; ESize 0; ERunEnd; EPeer [1; 2; 3; 4; 5]] = Go m.
-Proof. eexists. vm_compute. reflexivity. Qed.
+  (exists m, mon_run mon_init [EWrite [1; 2; 3; 4; 5] true (Some 4) [1]; EWritable; EHand [2]; EHand [3; 4]; ECb OnRead; ESize 1; ERunEnd;
+                              EWritable; EBlock; ERunEnd; EWritable; EHand [5]; ECb OnWrite; ESize 0; ERunEnd; EPeer [1; 2; 3; 4; 5]] = Go m) /\
+  (exists m, mon_run mon_init [EWrite [1; 2] true (Some 2) []; EWritable; EHand [1; 2]; ERunEnd; ERunEnd; EWritable; ECb OnWrite; ERunEnd] = Go m) /\
+  (exists m, mon_run mon_init [EReadable; ERunEnd; ECb OnRead; ERunEnd; ESusp true; EReadable; ERunEnd; ERunEnd; ERunEnd] = Go m) /\
+  (exists m, mon_run mon_init [EWrite [1] true (Some 1) []; EReadable; EWritable; EHand [1]; ECb OnWrite; ERunEnd; ERunEnd; ERunEnd] = Go m).
+Proof. repeat split; eexists; vm_compute; reflexivity. Qed.
 
 (* a history with a partial send, an append behind the backlog, a would-block, a suspended phase with a
    readable+writable report, a drain, and peer reads *)
@@ -327,14 +345,18 @@ Example ex_unregistered :
   registered s = false /\ backlog s = [] /\ gave_up (snd (exec init [Write [1; 2] WouldBlock; Dispatch (mknative false true false false false) Error])) = true.
 Proof. vm_compute. repeat split. Qed.
 
-(* the trace of the example history: 36 events, accepted; the monitor ends void (the history ends with a
-   failing send) after having followed the backlog through a partial send, an append, a suspended phase and the drain *)
+(* the trace of the example history (a size probe after every operation, the end of a run() after every poll event):
+   accepted; the monitor ends void (the history ends with a failing send) after having followed the backlog through a
+   partial send, an append, a suspended phase and the drain *)
+Definition ex_hist (l : list op) : list hop :=
+  flat_map (fun x => match x with Dispatch _ _ => [HOp x; HSize; HRunEnd] | _ => [HOp x; HSize] end) l.
+
 Example ex_trace_accepted :
-  length (trace init ex_ops) = 36%nat /\
-  (exists m, mon_run mon_init (trace init ex_ops) = Go m /\ m_void m = true) /\
-  (exists m, mon_run mon_init (trace init (firstn 6 ex_ops)) = Go m /\ m_pend m = [4; 5; 6; 7] /\ m_susp m = true /\
+  length (trace init (ex_hist ex_ops)) = 40%nat /\
+  (exists m, mon_run mon_init (trace init (ex_hist ex_ops)) = Go m /\ m_void m = true) /\
+  (exists m, mon_run mon_init (trace init (ex_hist (firstn 6 ex_ops))) = Go m /\ m_pend m = [4; 5; 6; 7] /\ m_susp m = true /\
              m_owed m = true /\ m_void m = false) /\
-  (exists m, mon_run mon_init (trace init (firstn 11 ex_ops)) = Go m /\ m_pend m = [] /\ m_wire m = [] /\ m_owed m = false /\
+  (exists m, mon_run mon_init (trace init (ex_hist (firstn 11 ex_ops))) = Go m /\ m_pend m = [] /\ m_wire m = [] /\ m_owed m = false /\
              m_void m = false).
 Proof. vm_compute. repeat split; eexists; repeat split. Qed.
 
@@ -348,29 +370,52 @@ Proof. vm_compute. reflexivity. Qed.
 Definition rd : native := mknative true false false false false.
 Definition rdwr : native := mknative true true false false false.
 Definition ex_ops2 : list op2 :=
-  [On false (PeerWrite [1]); On true (PeerWrite [2]);
-   Collect false (Some rd) (Some rd); Deliver Full; On true Suspend; Deliver Full;
-   On true Resume; Collect true (Some rd) (Some rd); Deliver Full; Deliver Full;
-   On true (Write [7; 8] WouldBlock); On true Suspend; Collect false None (Some rdwr); Deliver (Sent 1)].
+  [On 0%nat (PeerWrite [1]); On 1%nat (PeerWrite [2]);
+   Collect [(0%nat, rd); (1%nat, rd)]; Deliver Full; On 1%nat Suspend; Deliver Full;
+   On 1%nat Resume; Collect [(1%nat, rd); (0%nat, rd)]; Deliver Full; Deliver Full;
+   On 1%nat (Write [7; 8] WouldBlock); On 1%nat Suspend; Collect [(1%nat, rdwr)]; Deliver (Sent 1)].
 
 Example ex_two_clients :
   map (fun r => (o2_c r, o_cbs (o2_out r), o2_idle r)) (snd (exec2 init2 ex_ops2)) =
-    [(Some false, [], false); (Some true, [], false);
-     (None, [], false); (Some false, [OnRead], false); (Some true, [], false); (None, [], true);
-     (Some true, [], false); (None, [], false); (Some true, [OnRead], false); (Some false, [OnRead], false);
-     (Some true, [], false); (Some true, [], false); (None, [], false); (Some true, [], false)] /\
-  sel (fst (exec2 init2 (firstn 3 ex_ops2))) = [mkentry false true false; mkentry true true false] /\
+    [(Some 0%nat, [], false); (Some 1%nat, [], false);
+     (None, [], false); (Some 0%nat, [OnRead], false); (Some 1%nat, [], false); (None, [], true);
+     (Some 1%nat, [], false); (None, [], false); (Some 1%nat, [OnRead], false); (Some 0%nat, [OnRead], false);
+     (Some 1%nat, [], false); (Some 1%nat, [], false); (None, [], false); (Some 1%nat, [], false)] /\
+  sel (fst (exec2 init2 (firstn 3 ex_ops2))) = [mkentry 0%nat true false; mkentry 1%nat true false] /\
   sel (fst (exec2 init2 (firstn 5 ex_ops2))) = [] /\
-  susp_of_ops (ops_of true (firstn 5 ex_ops2)) false = true /\
-  susp_of_ops (ops_of true (firstn 13 ex_ops2)) false = true /\
-  sel (fst (exec2 init2 (firstn 13 ex_ops2))) = [mkentry true false true] /\
+  susp_of_ops (ops_of 1%nat (firstn 5 ex_ops2)) false = true /\
+  susp_of_ops (ops_of 1%nat (firstn 13 ex_ops2)) false = true /\
+  sel (fst (exec2 init2 (firstn 13 ex_ops2))) = [mkentry 1%nat false true] /\
   o_tx (o2_out (snd (step2 (fst (exec2 init2 (firstn 13 ex_ops2))) (Deliver (Sent 1))))) = [7].
 Proof. vm_compute. repeat split. Qed.
 
+(* three clients readable in ONE poll round; A is notified first and (its callback) suspends the LAST
+   collected client C first, then the middle one B: both collected read notifications are revoked, the
+   cache is empty and the next poll() has nothing to hand out - neither suspended client gets onRead *)
+Definition ex_ops3 : list op2 :=
+  [On 0%nat (PeerWrite [1]); On 1%nat (PeerWrite [2]); On 2%nat (PeerWrite [3]);
+   Collect [(0%nat, rd); (1%nat, rd); (2%nat, rd)]; Deliver Full;
+   On 2%nat Suspend; On 1%nat Suspend; Deliver Full].
+
+Example ex_three_clients :
+  map (fun r => (o2_c r, o_cbs (o2_out r), o2_idle r)) (snd (exec2 init2 ex_ops3)) =
+    [(Some 0%nat, [], false); (Some 1%nat, [], false); (Some 2%nat, [], false);
+     (None, [], false); (Some 0%nat, [OnRead], false);
+     (Some 2%nat, [], false); (Some 1%nat, [], false); (None, [], true)] /\
+  sel (fst (exec2 init2 (firstn 4 ex_ops3))) = [mkentry 0%nat true false; mkentry 1%nat true false; mkentry 2%nat true false] /\
+  sel (fst (exec2 init2 (firstn 5 ex_ops3))) = [mkentry 1%nat true false; mkentry 2%nat true false] /\
+  sel (fst (exec2 init2 (firstn 6 ex_ops3))) = [mkentry 1%nat true false] /\
+  sel (fst (exec2 init2 (firstn 7 ex_ops3))) = [] /\
+  susp_of_ops (ops_of 1%nat (firstn 7 ex_ops3)) false = true /\
+  susp_of_ops (ops_of 2%nat (firstn 7 ex_ops3)) false = true /\
+  susp_of_ops (ops_of 0%nat (firstn 7 ex_ops3)) false = false.
+Proof. vm_compute. repeat split. Qed.
+
 Example ex_refinement2 :
-  snd (spec_exec2 spec_init2 ex_ops2) = map Some (snd (exec2 init2 ex_ops2)).
-Proof. vm_compute. reflexivity. Qed.
+  snd (spec_exec2 spec_init2 ex_ops2) = map Some (snd (exec2 init2 ex_ops2)) /\
+  snd (spec_exec2 spec_init2 ex_ops3) = map Some (snd (exec2 init2 ex_ops3)).
+Proof. vm_compute. split; reflexivity. Qed.
 
 Example ex_embedding :
-  map o2_out (snd (exec2 init2 (map (On false) ex_ops))) = snd (exec init ex_ops).
+  map o2_out (snd (exec2 init2 (map (On 0%nat) ex_ops))) = snd (exec init ex_ops).
 Proof. vm_compute. reflexivity. Qed.
